@@ -93,6 +93,7 @@ type Remote struct {
 	lastCut      time.Time
 	readErr      error
 	done         chan struct{}
+	Born         time.Time // when the connection was handed to storrent (its peer actor's tickers count from here)
 	HonestAdvert bool // advertisement followed the protocol (remote view of availability is meaningful)
 	weInterested bool
 	Honest       bool // auto-seed that answers every request with the truth
@@ -122,7 +123,7 @@ func (tr *Tor) Connect(o RemoteOpts) *Remote {
 		choking: true, chokingP: true, stChoking: true,
 		fastSet: map[uint32]bool{}, out: map[BlockKey]int{}, outP: map[BlockKey]bool{}, canc: map[BlockKey]bool{}, everReq: map[BlockKey]bool{},
 		stHave: map[uint32]bool{}, ours: map[BlockKey]int{}, opt: map[BlockKey]int{}, sticky: map[BlockKey]int{}, cancOurs: map[BlockKey]int{}, cancW: map[BlockKey]bool{}, pexAnnounced: map[netip.AddrPort]bool{},
-		Counts: map[string]int{}, done: make(chan struct{}), quit: make(chan struct{}), MetaKnown: tr.T.InfoComplete()}
+		Counts: map[string]int{}, done: make(chan struct{}), quit: make(chan struct{}), MetaKnown: tr.T.InfoComplete(), Born: time.Now()}
 	np := tr.Geo.NumPieces()
 	r.adv = make([]bool, np)
 	r.advP = make([]bool, np)
